@@ -9,6 +9,7 @@ import Mdsort.Proofs.L0RefineSearch
 import Mdsort.Proofs.L0RefineMime
 import Mdsort.Proofs.L0RefineUtil
 import Mdsort.Proofs.L0RefineAttach
+import Mdsort.Proofs.L0Buffer
 
 /-!
 # C07 - hostile message content cannot corrupt memory, crash or hang mdsort
@@ -424,6 +425,133 @@ theorem C07_L0_refines_util (b : Buf) (hb : b.bytes.back? = some 0) (i : Nat) (h
   have h : b.HasNul i := Buf.Terminated.hasNul hb hi
   exact ⟨l0r_isMacro_refines b h, l0r_isBackref_refines b h,
     fun buf bufsiz beg end_ hle => l0r_pathslice_refines b (Buf.Terminated.hasNul0 hb) buf bufsiz hle beg end_⟩
+
+/-!
+## The growable buffer (libks/buffer.c) at index level
+
+`Model/L0/Buffer.lean`: the buffer is the object `bf_ptr` points to (bounds-checked), `bf_siz` and `bf_len`.  Every
+string mdsort builds piecewise (interpolation, labels, macro expansion, decoders, the message read from a
+descriptor) is built by these operations; the list-level models take "the bytes appended so far" for granted, which
+is `C07_L0_buffer_contents` below.  Allocation failure and `size_t` overflow are not modelled.
+-/
+
+open L0 in
+/-- No sequence of `buffer_puts` / `buffer_putc` / `buffer_printf` on a buffer obtained from `buffer_alloc` (any
+size hint, 0 included) ever writes outside the object `bf_ptr` points to: the run returns without `Fault.oob`, and
+afterwards the object still has exactly `bf_siz` bytes of which `bf_len <= bf_siz` are in use.  (Induction over the
+operation list with that invariant; `buffer_reserve`'s doubling from 16 is what makes each write fit.) -/
+theorem C07_L0_buffer_in_bounds (sizhint : Nat) (ops : List BufOp) :
+    ∃ bf rcs, (LBuf.alloc sizhint).run ops = .ok (bf, rcs) ∧ bf.store.size = bf.cap ∧ bf.len ≤ bf.cap ∧ sizhint ≤ bf.cap := by
+  obtain ⟨hwf, _, hcap, _⟩ := LBuf.alloc_wf sizhint
+  obtain ⟨bf, hr, hwf', _, hc⟩ := LBuf.run_spec ops (LBuf.alloc sizhint) hwf
+  exact ⟨bf, _, hr, hwf'.size, hwf'.le, by omega⟩
+
+open L0 in
+/-- Refinement to list append: after any sequence of operations every return value is 0 and the bytes in use are the
+concatenation of the pieces, in order - a piece is never dropped, truncated or written twice, whatever its length
+and wherever it ends relative to the capacity (64, 128, 256, ... included). -/
+theorem C07_L0_buffer_contents (sizhint : Nat) (ops : List BufOp) :
+    ∃ bf, (LBuf.alloc sizhint).run ops = .ok (bf, List.replicate ops.length 0) ∧
+      bf.contents = ops.flatMap BufOp.piece ∧ bf.getLen = (ops.flatMap BufOp.piece).length := by
+  obtain ⟨hwf, _, _, hc0⟩ := LBuf.alloc_wf sizhint
+  obtain ⟨bf, hr, hwf', hc, _⟩ := LBuf.run_spec ops (LBuf.alloc sizhint) hwf
+  rw [hc0, List.nil_append] at hc
+  refine ⟨bf, hr, hc, ?_⟩
+  have := congrArg List.length hc
+  unfold LBuf.contents at this
+  simp only [List.length_take, Array.length_toList] at this
+  have h1 := hwf'.size
+  have h2 := hwf'.le
+  unfold Buf.size at h1
+  unfold LBuf.getLen
+  omega
+
+open L0 in
+/-- `buffer_str` after any sequence of operations (what `message_parse`, `interpolate` - by `buffer_putc(bf, 0)` and
+`buffer_release` - and the decoders hand out): no access out of bounds; the object returned contains a NUL, and a C
+reader sees the concatenation of the pieces up to its first NUL - the premise (`HasNul`, `view`) of every other
+`C07_L0_*` theorem. -/
+theorem C07_L0_buffer_str (sizhint : Nat) (ops : List BufOp) :
+    ∃ bf rcs b, (LBuf.alloc sizhint).run ops = .ok (bf, rcs) ∧ bf.str = .ok (b, LBuf.empty) ∧
+      b.view 0 = cstr (ops.flatMap BufOp.piece) ∧ b.HasNul 0 := by
+  obtain ⟨hwf, _, _, hc0⟩ := LBuf.alloc_wf sizhint
+  obtain ⟨bf, hr, hwf', hc, _⟩ := LBuf.run_spec ops (LBuf.alloc sizhint) hwf
+  rw [hc0, List.nil_append] at hc
+  obtain ⟨b, hs, hv, hn⟩ := LBuf.str_spec bf hwf'
+  exact ⟨bf, _, b, hr, hs, by rw [hv, hc], hn⟩
+
+open L0 in
+/-- `buffer_read_fd` (8192 bytes, `read` into the free space, `buffer_reserve(bf, bf_siz / 2)` after every read):
+for every content and every pattern of short reads the kernel is never handed space outside the object, there is
+always room for at least one byte when `read` is called (so a `read` result of 0 means end of file), and the buffer
+ends up holding exactly the bytes delivered - also at 8192, 12288, 16384, ... bytes. -/
+theorem C07_L0_buffer_read_fd (data : Bytes) (short : List Nat) :
+    ∃ bf, LBuf.readFd data short = .ok bf ∧ bf.store.size = bf.cap ∧ bf.len ≤ bf.cap ∧ bf.contents = data := by
+  obtain ⟨bf, hr, hwf, hc⟩ := LBuf.readFd_spec data short
+  exact ⟨bf, hr, hwf.size, hwf.le, hc⟩
+
+open L0 in
+/-- Why `buffer_vprintf` reserves `n + 1` bytes for `n` formatted bytes.  Any reservation of at least one byte more
+than the string keeps both theorems above (first clause: for the guarded and for the unguarded `vsnprintf`).  With
+exactly `n` reserved, for EVERY buffer and every non-empty string that ends exactly at the capacity: the code as it
+stands (`vsnprintf` told the space really left) returns 1 and appends NOTHING - the contents theorem is false, the
+piece is lost, and no caller in mdsort looks at the return value; and a `vsnprintf` told `n + 1` writes its NUL at
+index `bf_siz`, outside the object - the in-bounds theorem is false. -/
+theorem C07_L0_buffer_needs_room_for_nul :
+    (∀ (extra : Nat) (guarded : Bool) (sizhint : Nat) (ops : List BufOp), 1 ≤ extra →
+      ∃ bf, (LBuf.alloc sizhint).runWith extra guarded ops = .ok (bf, List.replicate ops.length 0) ∧
+        bf.store.size = bf.cap ∧ bf.len ≤ bf.cap ∧ bf.contents = ops.flatMap BufOp.piece) ∧
+    (∀ (bf : LBuf) (s : Bytes), bf.store.size = bf.cap → bf.len ≤ bf.cap → s ≠ [] → bf.len + s.length = bf.cap →
+      ∃ bf', bf.vprintfWith 0 true s = .ok (1, bf') ∧ bf'.contents = bf.contents ∧ bf'.len = bf.len) ∧
+    (∀ (bf : LBuf) (s : Bytes), bf.store.size = bf.cap → bf.len ≤ bf.cap → bf.len + s.length = bf.cap →
+      bf.vprintfWith 0 false s = .error (.oob bf.cap)) := by
+  refine ⟨?_, ?_, ?_⟩
+  · intro extra guarded sizhint ops hx
+    obtain ⟨hwf, _, _, hc0⟩ := LBuf.alloc_wf sizhint
+    obtain ⟨bf, hr, hwf', hc⟩ := LBuf.runWith_spec extra guarded hx ops (LBuf.alloc sizhint) hwf
+    rw [hc0, List.nil_append] at hc
+    exact ⟨bf, hr, hwf'.size, hwf'.le, hc⟩
+  · intro bf s h1 h2 hs hend
+    exact LBuf.vprintf_without_room_drops bf s ⟨h1, h2⟩ hs hend
+  · intro bf s h1 h2 hend
+    exact LBuf.vprintf_without_room_unguarded_faults bf s ⟨h1, h2⟩ hend
+
+/-- The data of the witness below: `buffer_alloc(16)`, `buffer_puts` of 6 bytes, `buffer_printf` of a 10-byte string. -/
+def bufWitnessPre : Bytes := [97, 98, 99, 100, 101, 102]
+def bufWitnessPiece : Bytes := [48, 49, 50, 51, 52, 53, 54, 55, 56, 57]
+/-- What a run left: contents, capacity and return values, or the fault. -/
+def bufOutcome (r : L0.M (L0.LBuf × List Nat)) : Except L0.Fault (Bytes × Nat × List Nat) :=
+  match r with
+  | .ok (bf, rcs) => .ok (bf.contents, bf.cap, rcs)
+  | .error e => .error e
+
+instance : DecidableEq (Except L0.Fault (Bytes × Nat × List Nat)) := fun a b =>
+  match a, b with
+  | .ok x, .ok y => if h : x = y then isTrue (by rw [h]) else isFalse (fun e => h (Except.ok.inj e))
+  | .error x, .error y => if h : x = y then isTrue (by rw [h]) else isFalse (fun e => h (Except.error.inj e))
+  | .ok _, .error _ => isFalse (fun e => by cases e)
+  | .error _, .ok _ => isFalse (fun e => by cases e)
+
+/-- The capacity boundary on a concrete run, by evaluation: 6 + 10 = 16 = `bf_siz`.  As the code stands: all 16
+bytes in the buffer (which grew to 32).  Reserving `n` only: return value 1 and the 10 bytes are missing (guarded),
+or a write at index 16 of a 16-byte object (unguarded).  One byte less or one more and the variants agree. -/
+theorem C07_L0_buffer_needs_room_for_nul_witness :
+    bufOutcome ((L0.LBuf.alloc 16).run [.puts bufWitnessPre, .printf bufWitnessPiece]) =
+      .ok (bufWitnessPre ++ bufWitnessPiece, 32, [0, 0]) ∧
+    bufOutcome ((L0.LBuf.alloc 16).runWith 0 true [.puts bufWitnessPre, .printf bufWitnessPiece]) =
+      .ok (bufWitnessPre, 16, [0, 1]) ∧
+    bufOutcome ((L0.LBuf.alloc 16).runWith 0 false [.puts bufWitnessPre, .printf bufWitnessPiece]) = .error (.oob 16) ∧
+    bufOutcome ((L0.LBuf.alloc 16).runWith 0 true [.puts bufWitnessPre, .printf (bufWitnessPiece.take 9)]) =
+      .ok (bufWitnessPre ++ bufWitnessPiece.take 9, 16, [0, 0]) ∧
+    bufOutcome ((L0.LBuf.alloc 16).runWith 0 true [.puts bufWitnessPre, .printf (bufWitnessPiece ++ [33])]) =
+      .ok (bufWitnessPre ++ bufWitnessPiece ++ [33], 32, [0, 0]) := by
+  decide +kernel
+
+/-- Non-vacuity of the second and third clause of `C07_L0_buffer_needs_room_for_nul`: the buffer of the witness
+after its `buffer_puts` satisfies their hypotheses with the 10-byte string. -/
+example : (((L0.LBuf.alloc 16).puts bufWitnessPre).toOption.map fun r =>
+    (r.1, decide (r.2.store.size = r.2.cap), decide (r.2.len ≤ r.2.cap), decide (r.2.len + bufWitnessPiece.length = r.2.cap))) =
+    some (0, true, true, true) := by decide +kernel
 
 /-! Non-vacuity of the refinement theorems. -/
 
